@@ -34,6 +34,12 @@
 #else
 #define TLS
 #endif
+#if defined(__has_feature)
+#if __has_feature(memory_sanitizer)
+#include <sanitizer/msan_interface.h>
+#define HARNESS_MSAN 1
+#endif
+#endif
 #define NINST 8
 #define GUARD 64
 #define NKEYS 13
@@ -318,6 +324,10 @@ run_script(const char *script, FILE *output, int full)
             if (inst[k] && on_heap[k]) rdsparser_free(inst[k]);
 #endif
             memset(&slots[k].obj, fill, sizeof(rdsparser_t));
+#ifdef HARNESS_MSAN
+            /* MemorySanitizer build: the caller's storage counts as uninitialised */
+            __msan_poison(&slots[k].obj, sizeof(rdsparser_t));
+#endif
             inst[k] = &slots[k].obj;
             on_heap[k] = 0;
             rdsparser_init(inst[k]);
